@@ -559,3 +559,4 @@ EXPLANATION += (' Round 6: ' + 'ORD/ties/silence-previous-note: the silence in f
 EXPLANATION += (' Rounds 9-10: ' + "ORD/stored-prefix (takewhile / dropwhile over storage order); a positional read whose index walks the list's own positions and the result of a same-module helper over storage-ordered data are cannot-classify.")
 EXPLANATION += (' Round 11: ' + 'ORD/assumes-sorted (heapq.merge / bisect over storage order); ORD/one-key-per-state-table.')
 EXPLANATION += (' Round 12: ' + 'a grouped sort key (instrument, time, ...) is cannot-classify.')
+EXPLANATION += (' Round 13: ' + 'a list sorted by time and then appended to is cannot-classify.')
